@@ -1279,14 +1279,15 @@ func handleAction(c *webClient, a any) error {
 		user := c.Username()
 		d := c.Data()
 		clients := g.GetClients(nil)
-		go func(clients []group.Client) {
-			verifhook.At("rtpconn.changeBroadcast", id)
-			for _, cc := range clients {
-				cc.PushClient(
-					g.Name(), "change", id, user, perms, d,
-				)
-			}
-		}(clients)
+		// Do this synchronously: PushClient doesn't block, and a
+		// detached goroutine could be overtaken by the one of the
+		// next change, leaving everyone with the older state.
+		verifhook.At("rtpconn.changeBroadcast", id)
+		for _, cc := range clients {
+			cc.PushClient(
+				g.Name(), "change", id, user, perms, d,
+			)
+		}
 	case kickAction:
 		return group.KickError{
 			a.id, a.username, a.message,
@@ -1993,15 +1994,14 @@ func handleClientMessage(c *webClient, m clientMessage) error {
 			user := c.Username()
 			perms := c.Permissions()
 			data = c.Data()
-			go func(clients []group.Client) {
-				verifhook.At("rtpconn.changeBroadcast", id)
-				for _, cc := range clients {
-					cc.PushClient(
-						g.Name(), "change",
-						id, user, perms, data,
-					)
-				}
-			}(g.GetClients(nil))
+			// synchronously, see permissionsChangedAction
+			verifhook.At("rtpconn.changeBroadcast", id)
+			for _, cc := range g.GetClients(nil) {
+				cc.PushClient(
+					g.Name(), "change",
+					id, user, perms, data,
+				)
+			}
 		default:
 			return group.UserError("unknown user action")
 		}
